@@ -239,12 +239,14 @@ def run_session(cfg, seed, script, fate_factory, phases_gap=None, yield_on_send=
                 srv_ready.set()
                 await srv_done.wait()
                 tg.cancel_scope.cancel()
+            out.server_pid_end = client.pid()
             sim.net.log.append(("app", sim.now(), "s", "done", 0, b""))
 
         out.accepted, out.send_errors = [], []
         out.connect_error = None
         out.rnd = {}
         out.server_pid = None
+        out.server_pid_end = None
         out.handler_started = False
         out.extra_handlers = []
         out.creds = creds
